@@ -162,6 +162,47 @@ Proof.
   exists f0. intros f Hf. eexists. split; [apply F; exact Hf|]. split; reflexivity.
 Qed.
 
+(* ---- sbdf_ts_create: a fresh table slice that refers to the caller's table metadata: no columns, not owning ---- *)
+Lemma ts_create_bs bv k sx m o h headv outv t0 c0 : is_ptr outv -> (headv = VNull \/ exists hb, headv = VCell hb 0) ->
+  bsE prog_env (fbody prog_sbdf_ts_create) (fr [("head"%string, headv); ("out"%string, outv); ("t"%string, t0); ("*out"%string, c0)] bv k sx h m o)
+    (if k =? 0 then OReturn (VInt SBDF_ERROR_OUT_OF_MEMORY) (fr [("head"%string, headv); ("out"%string, outv); ("t"%string, VNull); ("*out"%string, c0)] bv (-1) sx h m o)
+     else OReturn (VInt SBDF_OK) (fr [("head"%string, headv); ("out"%string, outv); ("t"%string, VCell (List.length h) 0); ("*out"%string, VCell (List.length h) 0)] bv (next_fail k) sx
+                                     (h ++ [Some [headv; VInt 0; VNull; VInt 0]]) m o)).
+Proof.
+  intros Ho Hh. destruct outv as [| pr po | | | | |]; try contradiction. cbn [fbody prog_sbdf_ts_create]. unfold fr.
+  assert (Hn : forall blk, nth_error (h ++ [Some blk]) (List.length h) = Some (Some blk)) by (intros; rewrite nth_error_app2 by lia; rewrite Nat.sub_diag; reflexivity).
+  assert (Hs : forall x y, set_nth_v (List.length h) (Some y) (h ++ [Some x]) = Some (h ++ [Some y])).
+  { clear. intros x y. induction h as [|z h IH]; cbn [List.length app set_nth_v]; [reflexivity|]. now rewrite IH. }
+  destruct Hh as [->|(hb & ->)].
+  all: (eapply bsE_seq; [eapply bsE_decl0; evr; reflexivity|]);
+       (eapply bsE_seq; [eapply bsE_if; [evr; reflexivity|reflexivity|apply bsE_skip]|]);
+       destruct (k =? 0) eqn:Ek;
+       [ (eapply bsE_seq; [eapply bsE_expr; evr; chk7; evr; rewrite Ek; evr; reflexivity|]);
+         eapply bsE_seq_ret; (eapply bsE_if; [evr; reflexivity|reflexivity|]); eapply bsE_return; evr; chk7; reflexivity
+       | (eapply bsE_seq; [eapply bsE_expr; evr; chk7; evr; rewrite Ek; evr; reflexivity|]);
+         (eapply bsE_seq; [eapply bsE_if; [evr; reflexivity|reflexivity|apply bsE_skip]|]);
+         change (repeat (VInt 0) (Z.to_nat 4)) with [VInt 0; VInt 0; VInt 0; VInt 0];
+         (eapply bsE_seq; [eapply bsE_expr; evr; chk7; evr; cellrw (Hn [VInt 0; VInt 0; VInt 0; VInt 0]); rewrite Hs; evr; reflexivity|]);
+         (eapply bsE_seq; [eapply bsE_expr; evr; chk7; evr; chk7; evr; unfold cell_set; rewrite Hn; cbn [Z.add Z.leb Z.compare Z.to_nat]; change (Pos.to_nat 1) with 1%nat; cbn [set_nth_v]; rewrite Hs; evr; reflexivity|]);
+         (eapply bsE_seq; [eapply bsE_expr; evr; chk7; evr; chk7; evr; unfold cell_set; rewrite Hn; cbn [Z.add Z.leb Z.compare Z.to_nat]; change (Pos.to_nat 3) with 3%nat; cbn [set_nth_v]; rewrite Hs; evr; reflexivity|]);
+         (eapply bsE_seq; [eapply bsE_expr; evr; chk7; evr; unfold cell_set; rewrite Hn; cbn [Z.add Z.leb Z.compare Z.to_nat]; change (Pos.to_nat 2) with 2%nat; cbn [set_nth_v]; rewrite Hs; evr; reflexivity|]);
+         (eapply bsE_seq; [eapply bsE_expr; evr; reflexivity|]); eapply bsE_return; evr; chk7; unfold next_fail; reflexivity ].
+Qed.
+
+Theorem ts_create_source k sx m h hb :
+  exists f0, forall f, (f0 <= f)%nat -> exists fin,
+    callC prog_env f prog_sbdf_ts_create [VCell hb 0; tok] m k sx h =
+      OReturn (VInt (if k =? 0 then SBDF_ERROR_OUT_OF_MEMORY else SBDF_OK)) fin /\ inb fin = m /\
+    (if k =? 0 then lookup cells_var (vars fin) = Some (VHeap h)
+     else lookup cells_var (vars fin) = Some (VHeap (h ++ [Some [VCell hb 0; VInt 0; VNull; VInt 0]])) /\
+          lookup "*out" (vars fin) = Some (VCell (List.length h) 0)).
+Proof.
+  pose proof (ts_create_bs (VInt 0) k sx m [] h (VCell hb 0) tok VUndef VUndef I (or_intror (ex_intro _ hb eq_refl))) as B.
+  destruct (k =? 0); destruct (bsE_sound _ _ _ _ B) as (f0 & F); exists f0; intros f Hf; eexists; (split; [apply F; exact Hf|]); (split; [reflexivity|]).
+  - reflexivity.
+  - split; reflexivity.
+Qed.
+
 (* whatever the released containers referred to is still there: value arrays, column slices, the table metadata *)
 Theorem release_leaves_others b1 b2 b3 (h : heap) c : c <> b1 -> c <> b2 -> c <> b3 ->
   nth_error (kill b1 (kill b2 (kill b3 h))) c = nth_error h c.
